@@ -20,8 +20,13 @@ package common
 
 // ---- C08: reserved words. An identifier is escaped when its Python spelling (after the case conversion) is reserved.
 // `self` is not a keyword, but every field is a keyword parameter of the generated __init__(self, *, ...):
+// The numpy dtype expression of a type is a function of the type alone.
+//@ func TypeDTypeSyntax
+//@   pure
+//@   invariant 0: td.Dimensions != nil && (forall k in 0..len(*td.Dimensions) :: (*td.Dimensions)[k].Length != nil)
 //@ func FieldIdentifierName
 //@   property C08
+//@   pure
 //@   ensures the_receiver_name_is_not_a_field_name: lastResult(formatting.ToSnakeCase) == "self" ==> result != "self"
 //@   ensures unreserved_spelling_is_kept: !(lastResult(formatting.ToSnakeCase) in reservedNames) ==> result == lastResult(formatting.ToSnakeCase)
 //@   ensures reserved_spelling_is_escaped: (lastResult(formatting.ToSnakeCase) in reservedNames) ==> result == lastResult(formatting.ToSnakeCase) + "_"
